@@ -18,7 +18,7 @@ Sig(kind, class, e) == [prop |-> "C10", kind |-> kind, class |-> class, scn |-> 
 \* by the thief is attributed to the path on which the token granted him the allowance over
 \* the module's escrow (grant).
 ClassOf(e, s, g) ==
-    "path=" \o (IF e.ev = "thief_drain" THEN g ELSE PathOf(e.ev)) \o ",behaviour=" \o s.behaviour
+    "path=" \o (IF e.ev = "thief_drain" THEN g ELSE PathOf(e.ev)) \o ",behaviour=" \o BehName(s)
 
 TraceInit ==
     /\ l = 1 /\ viol = {} /\ div = {} /\ nscn = 0 /\ grant = "-"
@@ -34,7 +34,7 @@ TraceNext ==
           THEN /\ nscn' = nscn + 1
                /\ burnt' = "0"
                /\ grant' = "-"
-               /\ viol' = viol \cup {Sig("init:" \o n, "path=-,behaviour=" \o e.post.behaviour, e) : n \in BrokenInvariants(e.post, "0")}
+               /\ viol' = viol \cup {Sig("init:" \o n, "path=-,behaviour=" \o BehName(e.post), e) : n \in BrokenInvariants(e.post, "0")}
                /\ div' = div
           ELSE LET b2 == IF e.ev = "holder_burn" /\ e.ok /\ st.kind = "coin"
                          THEN BigAdd(burnt, BigSub(st.tokenSupply, e.post.tokenSupply)) ELSE burnt
